@@ -21,6 +21,7 @@
 #include "romea_core_common/transform/SmartRotation3D.hpp"
 #include "romea_core_common/coordinates/PolarCoordinates.hpp"
 #include "romea_core_common/coordinates/SphericalCoordinates.hpp"
+#include <cfenv>
 #include "vh.hpp"
 #include <memory>
 
@@ -1604,6 +1605,19 @@ template<class S> static void dispatch(vh::Ctx & c, vh::Rng & r, int fam)
 
 static void one_case(vh::Ctx & c, uint64_t idx)
 {
+  // cases the framework runs with the caller's rounding direction set to a directed mode: only the
+  // families whose statement is about ranges and congruences (normalisers, planar rotation, polar
+  // coordinates).  The unchanged Euler / quaternion / spherical code takes asin of a ratio that is
+  // at most 1 only under round-to-nearest (sqrt(x^2+y^2+z^2) >= |z| needs correct rounding), so under
+  // a directed mode it can legitimately return NaN for a pitch or elevation at the limit: outside
+  // the statement, stated in `assumptions`.
+  if (c.caller_rounding != FE_TONEAREST) {
+    vh::Rng r(c.seed, idx);
+    int fam = 52 + (int)r.range(0, 33);
+    c.cat(istr("directed_rounding_restricted_to_normalisers_rot2d_polar"));
+    if (r.coin(0.45)) {dispatch<float>(c, r, fam);} else {dispatch<double>(c, r, fam);}
+    return;
+  }
   // long histories are rare and expensive: a fixed share of the case indices
   if (idx % 250000 == 4321) {smart_long_history_case(c, idx, true); return;}
   if (idx % 2000 == 321) {smart_long_history_case(c, idx, false); return;}
